@@ -505,6 +505,9 @@ pub fn key_alg() -> impl Strategy<Value = KeyAlg> {
 	if keys::available_algs().contains(&KeyAlg::P521) {
 		w.push((12, KeyAlg::P521));
 	}
+	if keys::available_algs().contains(&KeyAlg::Rsa6144) {
+		w.push((1, KeyAlg::Rsa6144));
+	}
 	let total: u32 = w.iter().map(|x| x.0).sum();
 	(0..total).prop_map(move |mut r| {
 		for (wt, a) in &w {
